@@ -610,6 +610,7 @@ def gen_C02(c, rng, tier):
       '(infinite jacobian, zero density sum); all three integrators and types; non-trivial = at least one non-finite and one finite evaluation',
       COMMON_ASSUMPTIONS + ['channel maps honour the documented contract (outputs are functions of channel, numbers and coordinates)'])
 def gen_C06(c, rng, tier):
+    PROPS['C06']['mpi'] = True
     for t in TYPES:
         fmt = FMTS[t]
         for kind in KINDS:
@@ -620,6 +621,12 @@ def gen_C06(c, rng, tier):
                 a = c.add(t, 'run', s, classes=cl + ['poisoned'], info=info)
                 if twin is not None:
                     c.add(t, 'run', twin, classes=['zeroed_twin'], twin_of=a, info=info)
+            for _ in range(scale(tier, 2, 16)):
+                # the MPI drivers: non-finite values on some ranks only; the reduced counters and sums must be those of the same estimator
+                s, cl, info = rand_run(rng, fmt, kind, poly=False, iters=rng.choice([2, 3]), calls=[5, 8, 13],
+                                       value_classes=['small_int', 'nan', 'inf', 'ninf', 'zero', 'frac'], special_map=(kind == 'mc'))
+                s, cl2 = mpi_variant(rng, s, info, worlds=(2, 3, 5))
+                c.add(t, 'run', s, classes=cl + cl2 + ['poisoned'], info=info)
 
 @prop('C10', 'runs of the three integrators with every value pattern, grid and weight vector: the number of raw draws taken from the scripted 64-bit engine '
       'and the stored generator positions are compared with the model; the predictor random_number_usage is compared with the measured draws of all nine '
